@@ -336,8 +336,19 @@ static bool alloc_fails()
 	errno = ENOMEM;
 	return true;
 }
-extern "C" void *simk_malloc(size_t n) { return alloc_fails() ? NULL : malloc(n); }
-extern "C" void *simk_calloc(size_t a, size_t b) { return alloc_fails() ? NULL : calloc(a, b); }
+// (a request no allocator can meet fails the way glibc's does - NULL and ENOMEM - instead of stopping the sanitizer)
+#define SIMK_ALLOC_LIMIT ((size_t)1 << 44)
+extern "C" void *simk_malloc(size_t n)
+{
+	if (n > SIMK_ALLOC_LIMIT) { errno = ENOMEM; return NULL; }
+	return alloc_fails() ? NULL : malloc(n);
+}
+extern "C" void *simk_calloc(size_t a, size_t b)
+{
+	size_t prod;
+	if (__builtin_mul_overflow(a, b, &prod) || prod > SIMK_ALLOC_LIMIT) { errno = ENOMEM; return NULL; }
+	return alloc_fails() ? NULL : calloc(a, b);
+}
 
 extern "C" void *simk_realloc(void *p, size_t n)
 {
